@@ -233,6 +233,11 @@ def fault_cases(ctx):
     n = 120 if ctx.tier == "quick" else 2500
     for i in range(n):
         out.append(render(gen_history(rng, rng.choice([2, 3, 4, 6, 8, 10]))))
+    # the third API layer (split constructors, setters, move idioms, build_string / build_bool, typed serializers)
+    sc = api3_scenarios(ctx)
+    out += sc[:: max(1, len(sc) // (60 if ctx.tier == "quick" else 600))]
+    for i in range(60 if ctx.tier == "quick" else 1200):
+        out.append(render3(gen_history3(rng, rng.choice([2, 3, 4, 6, 8, 10]))))
     return out
 
 def thr_cases(ctx):
@@ -241,7 +246,7 @@ def thr_cases(ctx):
     runs = 24 if ctx.tier == "quick" else 500
     for i in range(runs):
         n = rng.choice([2, 3, 4, 8, 16])
-        hs = [render(gen_history(rng, rng.choice([10, 30, 60]))) for _ in range(n)]
+        hs = [render(gen_history(rng, rng.choice([10, 30, 60]))) if j % 3 else render3(gen_history3(rng, rng.choice([10, 30, 60]))) for j in range(n)]
         # every thread also decodes half / single / double floats, text and nested containers
         hs = [_close(["load f9%04x" % rng.randrange(65536), "load 82f93c00fa7fc00000", "load 7f6161ff", "desc 1"]) + "; " + h.replace("? ", "? ") if False else h for h in hs]
         hs = [_close(["load f9%04x" % rng.randrange(65536), "load 83f93c00fa7fc00000c16161"]) if i % 2 == 0 else h for i, h in enumerate(hs)] + hs[:1]
